@@ -334,7 +334,7 @@ def c1 : Chain.Blk := ⟨1, 0, 1, 10, [1]⟩
 def c2 : Chain.Blk := ⟨2, 0, 1, 20, [2]⟩
 def U0 : Chain.Map Chain.Blk := Chain.mapOf [cg, c1, c2]
 
-theorem U0_cases {k : Nat} {x : Chain.Blk} (h : U0 k = some x) : x = cg ∨ x = c1 ∨ x = c2 := by
+private theorem U0_cases {k : Nat} {x : Chain.Blk} (h : U0 k = some x) : x = cg ∨ x = c1 ∨ x = c2 := by
   have := (Chain.mapOf_id h).2
   simpa using this
 
